@@ -15,6 +15,7 @@
 package main
 
 import (
+	"bytes"
 	"context"
 	"encoding/hex"
 	"fmt"
@@ -187,7 +188,7 @@ func (s *qspec) wire() []byte {
 // the property (both must be ordinary queries).
 func sameQuestion(a, b *qspec) bool {
 	return a.Type == b.Type && a.Class == b.Class && a.AD == b.AD && a.CD == b.CD && a.QDO == b.QDO &&
-		string(a.Name) == string(b.Name)
+		bytes.Equal(asciiLower(a.Name), asciiLower(b.Name)) // spellings of one name (RFC 4343) ask the same question
 }
 
 func (s *qspec) fingerprint(buf []byte, order int) []byte {
